@@ -74,8 +74,8 @@ _guarded: dict = {}
 
 
 def _source(kind: str, data: bytes):
-    """The two kinds of source real callers pass, each with a deterministic read budget (20 reads per input
-    byte + 10000; a normal parse needs at most one read per byte) so that a parser that never terminates becomes
+    """The two kinds of source real callers pass, each with a deterministic read budget (4 reads per input
+    byte + 2000; a normal parse needs at most one read per byte) so that a parser that never terminates becomes
     a reported violation instead of an exhausted machine."""
     mp4, BufferedReader = _lib()
     if not _guarded:
@@ -84,7 +84,7 @@ def _source(kind: str, data: bytes):
                 def read(self, *a):
                     self._vt_budget -= 1
                     if self._vt_budget < 0:
-                        raise ParseBudgetExceeded(f"more than {20 * self._vt_len + 10000} reads on {self._vt_len} bytes of input")
+                        raise ParseBudgetExceeded(f"more than {4 * self._vt_len + 2000} reads on {self._vt_len} bytes of input")
                     return super().read(*a)
             Guarded.__name__ = base.__name__
             return Guarded
@@ -92,7 +92,7 @@ def _source(kind: str, data: bytes):
         _guarded["io"] = guard(io.BufferedReader)
     src = _guarded["br"](None, data=data) if kind == "br" else _guarded["io"](io.BytesIO(data))
     src._vt_len = len(data)
-    src._vt_budget = 20 * len(data) + 10000
+    src._vt_budget = 4 * len(data) + 2000
     return src
 
 
@@ -153,12 +153,32 @@ def _exc_box(exc) -> tuple[str, str]:
     return label or "file", where
 
 
-def _fail_exc(out: Outcome, exc, phase: str, ctx: str):
+def _phase(exc) -> str:
+    """which stage of the library the exception came out of, by the innermost recognisable frame."""
+    names = []
+    tb = exc.__traceback__
+    while tb is not None:
+        if "/dashlive/" in tb.tb_frame.f_code.co_filename:
+            names.append(tb.tb_frame.f_code.co_name)
+        tb = tb.tb_next
+    for n in reversed(names):
+        if n in ("parse", "load", "lazy_load", "parse_payload", "parse_header"):
+            return "parse"
+        if n in ("encode", "encode_fields", "encode_box_fields", "post_encode", "post_encode_all", "output_box_fields"):
+            return "encode"
+        if n in ("fromJSON", "__init__", "_copy_args", "from_kwargs"):
+            return "fromjson"
+        if n in ("toJSON", "_to_json", "_convert_value_to_json"):
+            return "tojson"
+    return "call"
+
+
+def _fail_exc(out: Outcome, exc, phase: str | None, ctx: str):
     box, where = _exc_box(exc)
     if isinstance(exc, ParseBudgetExceeded):
         out.fail(f"{box}/parse-does-not-terminate", f"{ctx}: {exc} (last repository frame {where})")
         return
-    out.fail(f"{box}/raises/{_exc_name(exc)}/in-{phase}", f"{ctx}: {exc!r} at {where}")
+    out.fail(f"{box}/raises/{_exc_name(exc)}/in-{phase or _phase(exc)}", f"{ctx}: {exc!r} at {where}")
 
 
 def _canon(js) -> str:
@@ -244,19 +264,35 @@ def _encode_list(atoms) -> bytes:
 
 # --------------------------------------------------------------------------- the oracle of engines 1 and 2
 
-def roundtrip_oracle(data: bytes, iv_size, src_kind: str, out: Outcome, infos=None, ctx: str = "",
-                     heavy_json: bool = True) -> int:
-    """All parse/encode passes over one well-formed byte string.  Returns the number of passes made."""
+def roundtrip_oracle(data: bytes, iv_size, src_kind: str, out: Outcome, infos=None, ctx: str = "") -> int:
+    """All parse/encode passes over one well-formed byte string.  Returns the number of passes made.
+
+    Signatures:  <box>/roundtrip/<how it differs>            re-encoding from fields differs (any mode)
+                 <box>/roundtrip-lazy-only/<how>             only trees with untouched lazy boxes differ
+                 <box>/json-roundtrip/<how>                  only the fromJSON(toJSON()) tree differs
+                 <box>/eager-vs-lazy/field-differs/<field>
+                 <box>/raises/<Exception>/in-<parse|encode|tojson|fromjson|json-encode>
+                 <box>/parse-does-not-terminate
+    """
     from .. import isowrite
     mp4, _ = _lib()
     passes = 0
     found: dict[tuple[str, str], list] = {}
 
+    raised: set = set()
+
     def compare(tag, produced):
         if produced == data:
             return
-        label, what, detail = isowrite.blame(data, produced, infos)
-        found.setdefault((label, what), [[], detail])[0].append(tag)
+        for label, what, detail in isowrite.blame(data, produced, infos):
+            found.setdefault((label, what), [set(), detail])[0].add(tag)
+
+    def failed(exc, phase, where):
+        key = (_exc_box(exc)[0], _exc_name(exc))
+        if phase == "json-encode" and key in raised:
+            return          # the same box already raised the same exception when the parsed tree was encoded
+        raised.add(key)
+        _fail_exc(out, exc, phase, where)
 
     # (1) plain round trip in the four mode combinations
     for mode, lazy in MODES:
@@ -265,30 +301,29 @@ def roundtrip_oracle(data: bytes, iv_size, src_kind: str, out: Outcome, infos=No
         try:
             w = _load(data, mode, lazy, iv_size, src_kind)
         except Exception as exc:
-            _fail_exc(out, exc, "parse", f"{ctx} load {tag}")
+            failed(exc, None, f"{ctx} load {tag}")
+            if not lazy:
+                return passes       # the eager parser rejects the input: every other pass fails the same way
             continue
         try:
             compare(tag, w.encode())
         except Exception as exc:
-            _fail_exc(out, exc, "encode", f"{ctx} encode {tag}")
-    # (2) lazy tree, every box touched; eager tree; field dictionaries equal
+            failed(exc, None, f"{ctx} encode {tag}")
+    # (2) eager tree and lazy tree with every box touched expose the same field values
     eager_js = lazy_js = None
     passes += 2
     try:
         we = _load(data, "r", False, iv_size, src_kind)
         eager_js = [a.toJSON() for a in we.children]
     except Exception as exc:
-        _fail_exc(out, exc, "tojson", f"{ctx} eager toJSON")
+        failed(exc, None, f"{ctx} eager toJSON")
     try:
         wl = _load(data, "r", True, iv_size, src_kind)
         _touch_all(wl, mp4)
         lazy_js = [a.toJSON() for a in wl.children]
-        try:
-            compare("r-lazy-touched", wl.encode())
-        except Exception as exc:
-            _fail_exc(out, exc, "encode", f"{ctx} encode r-lazy-touched")
+        compare("r-lazy-touched", wl.encode())
     except Exception as exc:
-        _fail_exc(out, exc, "tojson", f"{ctx} lazy touch/toJSON")
+        failed(exc, None, f"{ctx} lazy tree touched/toJSON/encode")
     if eager_js is not None and lazy_js is not None and _canon(eager_js) != _canon(lazy_js):
         p = _json_diff(eager_js, lazy_js) or "/"
         label, field = _atom_label(eager_js, p)
@@ -300,36 +335,64 @@ def roundtrip_oracle(data: bytes, iv_size, src_kind: str, out: Outcome, infos=No
         _self_assign(wr, mp4)
         compare("rw-self-assigned", wr.encode())
     except Exception as exc:
-        _fail_exc(out, exc, "encode", f"{ctx} rw self-assign")
+        failed(exc, None, f"{ctx} rw tree, fields assigned to themselves")
     # (4) JSON form and back
-    if eager_js is not None and heavy_json:
+    json_found = None
+    if eager_js is not None:
         passes += 1
         try:
             atoms = [mp4.Mp4Atom.fromJSON(copy.deepcopy(j)) for j in eager_js]
         except Exception as exc:
-            _fail_exc(out, exc, "fromjson", f"{ctx} fromJSON")
+            failed(exc, "fromjson", f"{ctx} fromJSON")
             atoms = None
         if atoms is not None:
             try:
                 produced = _encode_list(atoms)
                 if produced != data:
-                    label, what, detail = isowrite.blame(data, produced, infos)
-                    out.fail(f"{label}/json-roundtrip/{what}", f"{ctx} {detail}")
+                    json_found = isowrite.blame(data, produced, infos)
             except Exception as exc:
-                _fail_exc(out, exc, "json-encode", f"{ctx} encode of fromJSON tree")
+                failed(exc, "json-encode", f"{ctx} encode of the fromJSON tree")
+    causes = [k for k in found if not k[1].startswith("consequence:")]
     for (label, what), (tags, detail) in sorted(found.items()):
-        plain = {f"{m}-{'lazy' if lz else 'eager'}" for m, lz in MODES}
-        ts = set(tags)
-        if plain <= ts:
-            which = "roundtrip"
-        elif ts & plain == {"r-eager", "rw-eager"}:
-            which = "roundtrip-eager"
-        elif ts & plain:
-            which = "roundtrip-" + "+".join(sorted(ts & plain))
-        else:
-            which = "roundtrip-" + "+".join(sorted(ts))
-        out.fail(f"{label}/{which}/{what}", f"{ctx} passes {sorted(ts)}: {detail}")
+        if what.startswith("consequence:"):
+            if causes:
+                continue        # explained by the length change reported under another signature
+            what = what[len("consequence:"):]
+        which = "roundtrip-lazy-only" if tags <= {"r-lazy", "rw-lazy"} else "roundtrip"
+        out.fail(f"{label}/{which}/{what}", f"{ctx} passes {sorted(tags)}: {detail}")
+    jf = json_found or []
+    jcauses = [r for r in jf if not r[1].startswith("consequence:")]
+    for label, what, detail in jf:
+        if what.startswith("consequence:"):
+            if jcauses:
+                continue
+            what = what[len("consequence:"):]
+        if (label, what) not in found:
+            out.fail(f"{label}/json-roundtrip/{what}", f"{ctx} {detail}")
     return passes
+
+
+def size0_oracle(data: bytes, iv_size, src_kind: str, out: Outcome) -> int:
+    """data ends in a box whose size field is 0 ("extends to the end of the file", 14496-12 4.2)."""
+    n = 0
+    for mode, lazy in MODES:
+        tag = f"{mode}-{'lazy' if lazy else 'eager'}"
+        n += 1
+        try:
+            produced = _load(data, mode, lazy, iv_size, src_kind).encode()
+        except ParseBudgetExceeded as exc:
+            out.fail("header/size0/parse-does-not-terminate", f"{tag}: {exc}; input ends {data[-24:].hex()}")
+            break
+        except Exception as exc:
+            # which exception it is depends on the bytes that get misread as a header: one name for all
+            out.fail("header/size0/parse-raises", f"{tag}: {exc!r} at {_exc_box(exc)[1]}; input ends {data[-24:].hex()}")
+            continue
+        if produced != data:
+            k = next((i for i in range(min(len(produced), len(data))) if produced[i] != data[i]), min(len(produced), len(data)))
+            out.fail("header/size0/re-encoded-differently",
+                     f"{tag}: {len(data)} bytes in, {len(produced)} out, first difference at {k}: "
+                     f"in {data[max(0, k - 8):k + 24].hex()} out {produced[max(0, k - 8):k + 24].hex()}")
+    return n
 
 
 def _dedupe(out: Outcome):
@@ -424,8 +487,8 @@ def check_fixture(case) -> Outcome:
                 _fail_exc(out, exc, "parse", f"{rel} [{a},{b}) {tag}")
                 continue
             if produced != window:
-                label, what, detail = isowrite.blame(window, produced)
-                out.fail(f"{label}/roundtrip-window/{what}", f"{rel} [{a},{b}) {tag}: {detail}")
+                for label, what, detail in isowrite.blame(window, produced):
+                    out.fail(f"{label}/roundtrip-window/{what.replace('consequence:', '')}", f"{rel} [{a},{b}) {tag}: {detail}")
         passes += roundtrip_oracle(window, iv, "io" if case["index"] % 2 else "br", out, None, f"{rel} [{a},{b})")
         out.weight = passes * sum(1 + sum(1 for _ in isowrite.iter_boxes(t.children)) for t in g)
     else:       # nested boxes of context-free classes, each parsed on its own
@@ -436,8 +499,7 @@ def check_fixture(case) -> Outcome:
                 continue
             classes.add(lab)
             piece = b.raw
-            k += roundtrip_oracle(piece, iv, "br" if k % 2 else "io", out, None, f"{rel} {lab}@{b.start} alone",
-                                  heavy_json=True)
+            k += roundtrip_oracle(piece, iv, "br" if k % 2 else "io", out, None, f"{rel} {lab}@{b.start} alone")
         out.weight = max(1, k)
         if k == 0:
             out.trivial = "no-nested-context-free-box"
@@ -501,7 +563,14 @@ def check_generated(case) -> Outcome:
     _, sig, det = isowrite.check_structure(data)
     if sig:        # the writer produced something ill-formed: machinery problem, never a finding
         raise AssertionError(f"isowrite produced an ill-formed file: {sig}: {det}")
-    n = roundtrip_oracle(data, case.get("iv_size"), case.get("src", "br"), out, infos, "generated")
+    n = 0
+    if case["boxes"][-1].get("hdr") == "0":
+        # the same tree with an ordinary header on its last box goes through the full oracle; the size==0 form
+        # is judged on its own so that everything that follows from it carries one name
+        n += size0_oracle(data, case.get("iv_size"), case.get("src", "br"), out)
+        plain = [*case["boxes"][:-1], {k: v for k, v in case["boxes"][-1].items() if k != "hdr"}]
+        data, infos = isowrite.build_file(plain)
+    n += roundtrip_oracle(data, case.get("iv_size"), case.get("src", "br"), out, infos, "generated")
     labels = set()
     new = False
     known = fixture_cvf()
@@ -532,7 +601,7 @@ class GeneratedBoxes(Engine):
     name = "generated_boxes"
 
     def budget(self, tier):
-        return 2400 if tier == "quick" else 150_000
+        return 6000 if tier == "quick" else 300_000
 
     def strategy(self, tier):
         from .. import app, isowrite
@@ -543,4 +612,480 @@ class GeneratedBoxes(Engine):
         return check_generated(case)
 
 
-ENGINES = [FixtureRoundtrip(), GeneratedBoxes()]
+
+
+# --------------------------------------------------------------------------- engine 3: edit sequences
+
+def _rd_mehd(b):
+    from .. import isobox
+    v, _ = isobox.vf(b)
+    return struct.unpack_from(">Q" if v == 1 else ">I", b.data, b.start + b.hdr + 4)[0]
+
+
+def _rd_lang(b):
+    from .. import isobox
+    v, _ = isobox.vf(b)
+    x = struct.unpack_from(">H", b.data, b.start + b.hdr + 4 + (28 if v == 1 else 16))[0]
+    return "".join(chr(0x60 + ((x >> s) & 0x1F)) for s in (10, 5, 0))
+
+
+def _readers():
+    """independent field readers: (box fourcc, library field name) -> function(isobox.Box) -> value"""
+    from .. import isobox
+    R = {
+        ("tfdt", "base_media_decode_time"): lambda b: isobox.tfdt_time(b)[1],
+        ("mfhd", "sequence_number"): isobox.mfhd_seq,
+        ("tkhd", "track_id"): isobox.tkhd_track_id,
+        ("trex", "track_id"): lambda b: isobox.trex(b)["track_id"],
+        ("mehd", "fragment_duration"): _rd_mehd,
+        ("mdhd", "language"): _rd_lang,
+        ("mvhd", "next_track_id"): lambda b: struct.unpack_from(">I", b.data, b.end - 4)[0],
+        ("emsg", "event_id"): lambda b: isobox.emsg(b)["id"],
+    }
+    for f in ("track_id", "sample_description_index", "default_sample_duration", "default_sample_size", "default_sample_flags"):
+        R[("tfhd", f)] = (lambda name: lambda b: isobox.tfhd(b).get(name))(f)
+    for f in ("timescale", "duration"):
+        R[("mdhd", f)] = (lambda name: lambda b: isobox.mdhd(b)[name])(f)
+        R[("mvhd", f)] = (lambda name: lambda b: isobox.mvhd(b)[name])(f)
+    for f in ("timescale", "event_duration", "value", "presentation_time", "presentation_time_delta", "scheme_id_uri"):
+        R[("emsg", f)] = (lambda name: lambda b: isobox.emsg(b).get(name))(f)
+    R[("sidx", "timescale")] = lambda b: isobox.sidx(b)["timescale"]
+    R[("sidx", "earliest_presentation_time")] = lambda b: isobox.sidx(b)["ept"]
+    R[("sidx", "reference_id")] = lambda b: isobox.sidx(b)["reference_id"]
+    return R
+
+
+TFHD_FLAG = {"sample_description_index": 0x2, "default_sample_duration": 0x8, "default_sample_size": 0x10,
+             "default_sample_flags": 0x20}
+
+
+def _resolve(wrap, path):
+    cur = wrap
+    for name in path:
+        cur = getattr(cur, name.replace("-", "_"))
+    return cur
+
+
+def _find(boxes, path):
+    """first box along a path of fourccs in the independent tree"""
+    cur = None
+    level = boxes
+    for name in path:
+        cur = next((b for b in level if b.type == name.encode("latin1")), None)
+        if cur is None:
+            return None
+        level = cur.children
+    return cur
+
+
+def _count(boxes, fourcc: bytes, usertype: bytes | None = None) -> int:
+    from .. import isowrite
+    return sum(1 for b in isowrite.iter_boxes(boxes) if b.type == fourcc and (usertype is None or b.usertype == usertype))
+
+
+class _Skip(Exception):
+    pass
+
+
+def _apply_step(mp4, wrap, step, model, note):
+    """Performs one edit the way its real caller does.  Raises _Skip when the tree does not have what the step
+    needs (a precondition, not a finding).  Returns a description of what must be observable afterwards."""
+    from dashlive.utils.binary import Binary
+    op = step["op"]
+    expect = {"op": op}
+    if op == "touch":
+        try:
+            _resolve(wrap, step["path"])
+        except AttributeError:
+            raise _Skip()
+        return expect
+    if op == "set":
+        try:
+            box = _resolve(wrap, step["path"])
+        except AttributeError:
+            raise _Skip()
+        field, value = step["field"], step["value"]
+        if field not in box._fields:
+            raise _Skip()
+        if box.atom_type == "tfhd" and field in TFHD_FLAG and not box.flags & TFHD_FLAG[field]:
+            raise _Skip()
+        if box.atom_type == "emsg" and field in ("presentation_time", "presentation_time_delta") and \
+                (field == "presentation_time") != (box.version == 1):
+            raise _Skip()
+        wide = box.atom_type in ("tfdt", "mvhd") and field in ("base_media_decode_time", "duration")
+        if isinstance(value, int) and value >= 2**32 and not wide and getattr(box, "version", 0) != 1:
+            raise _Skip()       # not a legal value for the 32-bit form of the field
+        if isinstance(value, int) and value >= 2**32 and field in ("timescale", "track_id", "sequence_number", "next_track_id",
+                                                                   "event_duration", "event_id", "reference_id"):
+            raise _Skip()
+        setattr(box, field, value)
+        model[(tuple(step["path"]), field)] = value
+        expect["target"] = f"{box.atom_type}.{field}"
+        return expect
+    if op == "set_sample":
+        try:
+            trun = _resolve(wrap, step["path"])
+        except AttributeError:
+            raise _Skip()
+        if not trun.flags & 0x100 or not trun.samples:
+            raise _Skip()
+        i = step["index"] % len(trun.samples)
+        trun.samples[i].duration = step["value"]
+        model[(tuple(step["path"]), ("sample_duration", i))] = step["value"]
+        expect["target"] = "trun.samples.duration"
+        return expect
+    if op == "set_none":
+        try:
+            box = _resolve(wrap, step["path"])
+        except AttributeError:
+            raise _Skip()
+        setattr(box, step["field"], None)
+        expect["target"] = f"{box.atom_type}.{step['field']}=None"
+        return expect
+    if op == "or_flags":
+        try:
+            box = _resolve(wrap, step["path"])
+        except AttributeError:
+            raise _Skip()
+        box.flags |= step["mask"]
+        expect["target"] = f"{box.atom_type}.flags"
+        return expect
+    if op == "insert_tfdt":
+        try:
+            traf = _resolve(wrap, ["moof", "traf"])
+        except AttributeError:
+            raise _Skip()
+        if traf.find_child("tfdt") is not None:
+            raise _Skip()
+        tfdt = mp4.TrackFragmentDecodeTimeBox(version=0, flags=0, base_media_decode_time=step["value"])
+        traf.insert_child(traf.index("tfhd") + 1, tfdt)
+        traf.trun.flags |= mp4.TrackFragmentRunBox.data_offset_present
+        model[(("moof", "traf", "tfdt"), "base_media_decode_time")] = step["value"]
+        expect.update(target="traf+tfdt", added=(b"tfdt", None))
+        return expect
+    if op in ("append_pssh", "insert_pssh"):
+        try:
+            parent = _resolve(wrap, [step["where"]])
+        except AttributeError:
+            raise _Skip()
+        kids = [bytes.fromhex(k) for k in step["kids"]]
+        data = None if step["data"] is None else bytes.fromhex(step["data"])
+        pssh = mp4.ContentProtectionSpecificBox(version=step["version"], flags=0, system_id=bytes.fromhex(step["system_id"]),
+                                                key_ids=kids if step["version"] else [], data=data)
+        if op == "append_pssh":
+            parent.append_child(pssh)
+        else:
+            parent.insert_child(0, pssh)
+        expect.update(target=f"{step['where']}+pssh", added=(b"pssh", None),
+                      pssh={"version": step["version"], "system_id": bytes.fromhex(step["system_id"]),
+                            "kids": kids if step["version"] else [], "data": data or b"", "where": step["where"],
+                            "last": op == "append_pssh"})
+        return expect
+    if op == "insert_emsg":
+        try:
+            idx = wrap.index("moof")
+        except ValueError:
+            raise _Skip()
+        kw = {"version": step["version"], "flags": 0, "scheme_id_uri": step["scheme_id_uri"], "timescale": step["timescale"],
+              "event_duration": step["event_duration"], "event_id": step["event_id"], "value": step["value"],
+              "data": bytes.fromhex(step["data"])}
+        kw["presentation_time" if step["version"] else "presentation_time_delta"] = step["time"]
+        wrap.children.insert(idx, mp4.EventMessageBox(**kw))        # exactly what generate_media_segment does
+        # paths of the model are by first match: an emsg set earlier is now the second one
+        for k in [k for k in model if k[0] == ("emsg",)]:
+            del model[k]
+        expect.update(target="file+emsg", added=(b"emsg", None), emsg=dict(kw, index=idx))
+        return expect
+    if op == "insert_piff":
+        try:
+            traf = _resolve(wrap, ["moof", "traf"])
+        except AttributeError:
+            raise _Skip()
+        senc = traf.find_child("senc")
+        if senc is None or traf.find_child("saiz") is None:
+            raise _Skip()
+        pos = traf.index("saiz")
+        piff = mp4.PiffSampleEncryptionBox.clone_from_senc(senc)
+        traf.insert_child(pos, piff)
+        traf.trun._invalidate()
+        expect.update(target="traf+piff", added=(b"uuid", bytes.fromhex("a2394f525a9b4f14a2446c427c648df4")), piff=True)
+        return expect
+    if op == "del":
+        try:
+            parent = _resolve(wrap, step["path"])
+        except AttributeError:
+            raise _Skip()
+        name = step["name"]
+        if parent.find_atom(name, check_parent=False, no_exception=True) in (None, parent):
+            raise _Skip()
+        delattr(parent, name.replace("-", "_"))
+        gone = tuple(step["path"]) + (name,)
+        for k in [k for k in model if k[0][:len(gone)] == gone]:
+            del model[k]
+        expect.update(target=f"-{name}", removed=name.encode("latin1"))
+        return expect
+    if op == "move_senc_before_saiz":
+        try:
+            traf = _resolve(wrap, ["moof", "traf"])
+        except AttributeError:
+            raise _Skip()
+        if traf.find_child("senc") is None or traf.find_child("saiz") is None:
+            raise _Skip()
+        pos = traf.index("senc")
+        senc = traf.children[pos]
+        traf.remove_child(pos)
+        traf.insert_child(traf.index("saiz"), senc)
+        expect.update(target="traf:senc<->saiz")
+        return expect
+    raise AssertionError(f"unknown op {op}")
+
+
+def _edit_base(case):
+    """(bytes of the base tree, iv_size) or None when the base is not usable."""
+    from .. import isowrite
+    base = case["base"]
+    if base["kind"] == "fixture":
+        data, tops, iv, groups = _fixture(base["file"])
+        g = groups[base["group"]]
+        return data[g[0].start:g[-1].end], iv
+    data, _ = isowrite.build_file(base["boxes"])
+    return data, base.get("iv_size")
+
+
+def check_edits(case) -> Outcome:
+    from .. import isobox, isowrite
+    mp4, _ = _lib()
+    out = Outcome()
+    data, iv = _edit_base(case)
+    lazy = case["lazy"]
+    out.cls("base:" + case["base"]["kind"], "lazy" if lazy else "eager")
+    try:
+        # the base must be a tree the library handles on its own (parse everything, encode, parse the result):
+        # whatever fails here is a finding of the round-trip engines, not of an edit
+        probe = _load(data, "r", False, iv, "br").encode()
+        isowrite.walk(probe)
+        _load(probe, "r", False, iv, "br")
+        wrap = _load(data, "rw", lazy, iv, case.get("src", "br"))
+        prev = wrap.encode()
+    except Exception:
+        out.trivial = "base-does-not-roundtrip"
+        return out
+    try:
+        isowrite.walk(prev)
+    except isowrite.BoxError:
+        out.trivial = "base-does-not-reencode"
+        return out
+    readers = _readers()
+    model: dict = {}
+    changed = 0
+    done = 0
+    for si, step in enumerate(case["steps"]):
+        op = step["op"]
+        before = isowrite.walk(prev)
+        try:
+            expect = _apply_step(mp4, wrap, step, model, out.note)
+        except _Skip:
+            out.cls("skipped:" + op)
+            continue
+        except Exception as exc:
+            out.fail(f"edit/{_exc_box(exc)[0]}/{op}-raises/{_exc_name(exc)}", f"step {si} {step}: {exc!r} at {_exc_box(exc)[1]}")
+            break
+        done += 1
+        out.cls("op:" + op)
+        target = expect.get("target", op)
+        try:
+            cur = wrap.encode()
+        except Exception as exc:
+            # named after the box whose encoder gave up: the same stale state is reached through many different steps
+            out.fail(f"edit/{_exc_box(exc)[0]}/encode-raises/{_exc_name(exc)}",
+                     f"step {si} {step} ({target}): {exc!r} at {_exc_box(exc)[1]}")
+            break
+        if cur != prev:
+            changed += 1
+        boxes, sig, det = isowrite.check_structure(cur)
+        if sig:
+            out.fail(f"edit/{op}/{sig}", f"step {si} {step} ({target}): {det}")
+            break
+        # what the step added or removed is there / gone, everything else keeps its count
+        if "added" in expect:
+            t, ut = expect["added"]
+            if _count(boxes, t, ut) != _count(before, t, ut) + 1:
+                out.fail(f"edit/{op}/box-not-added", f"step {si} {step}: {_count(before, t, ut)} -> {_count(boxes, t, ut)}")
+        if "removed" in expect:
+            t = expect["removed"]
+            if _count(boxes, t) >= _count(before, t):
+                out.fail(f"edit/{op}/box-not-removed", f"step {si} {step}")
+        if "pssh" in expect:
+            e = expect["pssh"]
+            parent = _find(boxes, [e["where"]])
+            cands = [b for b in parent.children if b.type == b"pssh"]
+            got = isobox.pssh(cands[-1] if e["last"] else cands[0]) if cands else None
+            want = {"version": e["version"], "system_id": e["system_id"], "kids": e["kids"], "data": e["data"]}
+            if got != want:
+                out.fail(f"edit/{op}/pssh-written-values-differ", f"step {si}: want {want} got {got}")
+        if "emsg" in expect:
+            e = expect["emsg"]
+            b = boxes[e["index"]] if e["index"] < len(boxes) else None
+            got = isobox.emsg(b) if b is not None and b.type == b"emsg" else None
+            want = {"version": e["version"], "scheme_id_uri": e["scheme_id_uri"], "value": e["value"], "timescale": e["timescale"],
+                    "event_duration": e["event_duration"], "id": e["event_id"], "message_data": e["data"]}
+            want["presentation_time" if e["version"] else "presentation_time_delta"] = e.get("presentation_time", e.get("presentation_time_delta"))
+            if got != want:
+                out.fail(f"edit/{op}/emsg-written-values-differ", f"step {si}: want {want} got {got}")
+        if expect.get("piff"):
+            traf = _find(boxes, ["moof", "traf"])
+            kinds = [isowrite.box_label(c) for c in traf.children]
+            senc_b = next(c for c in traf.children if c.type == b"senc")
+            piff_b = next(c for c in traf.children if isowrite.box_label(c) == "uuid-piff")
+            if senc_b.payload != piff_b.payload:
+                out.fail("edit/insert_piff/body-differs-from-senc", f"step {si}: {kinds}")
+        # every value assigned so far (and not overwritten or deleted) is what an independent reader finds
+        for (path, field), value in sorted(model.items(), key=repr):
+            b = _find(boxes, path)
+            name = path[-1]
+            if b is None:
+                out.fail(f"edit/{op}/box-with-assigned-field-vanished/{name}", f"step {si}: {path}")
+                continue
+            try:
+                if isinstance(field, tuple):
+                    got = isobox.trun(b)["samples"][field[1]].get("duration")
+                    fname = "samples.duration"
+                else:
+                    rd = readers.get((name, field))
+                    if rd is None:
+                        continue
+                    got = rd(b)
+                    fname = field
+            except Exception as exc:
+                out.fail(f"edit/{op}/{name}-unreadable-afterwards", f"step {si}: {exc!r}")
+                continue
+            if got != value:
+                out.fail(f"{name}/edit-assigned-value-lost/{fname}", f"step {si} ({op} {target}): {path}.{field} assigned {value!r}, "
+                         f"independent reader finds {got!r} ({'lazy' if lazy else 'eager'} rw tree)")
+        # the library's own parser agrees on the assigned values
+        try:
+            again = _load(cur, "r", False, iv, "br")
+            for (path, field), value in sorted(model.items(), key=repr):
+                try:
+                    box = _resolve(again, list(path))
+                except AttributeError:
+                    continue
+                got = box.samples[field[1]].duration if isinstance(field, tuple) else getattr(box, field)
+                if got != value:
+                    out.fail(f"{path[-1]}/edit-assigned-value-not-reparsed/{field if isinstance(field, str) else 'samples.duration'}",
+                             f"step {si} ({op} {target}): assigned {value!r}, library re-parse gives {got!r}")
+        except Exception as exc:
+            out.fail(f"edit/{_exc_box(exc)[0]}/output-does-not-reparse/{_exc_name(exc)}", f"step {si} {step} ({target}): {exc!r} at {_exc_box(exc)[1]}")
+        prev = cur
+        if out.violations:
+            break
+    out.weight = max(1, done)
+    out.nontrivial = changed >= 1
+    if done == 0:
+        out.trivial = "no-applicable-step"
+    _dedupe(out)
+    return out
+
+
+def _edit_strategy():
+    from hypothesis import strategies as st
+    from .. import app, isowrite
+    app.boot()
+    frag_bases, init_bases = [], []
+    for p in _fixture_files():
+        rel = str(p.relative_to(app.FIXTURES))
+        groups = _fixture(rel)[3]
+        for i, g in enumerate(groups):
+            kinds = {b.type for b in g}
+            if b"moof" in kinds:
+                frag_bases.append({"kind": "fixture", "file": rel, "group": i})
+            elif b"moov" in kinds:
+                init_bases.append({"kind": "fixture", "file": rel, "group": i})
+    gen = isowrite.strategies(max_frags=1).map(lambda c: {"kind": "gen", "boxes": c["boxes"], "iv_size": c["iv_size"]})
+
+    def u(bits):
+        top = (1 << bits) - 1
+        return st.one_of(st.sampled_from([0, 1, top, top - 1, 1 << (bits - 1)] + ([1 << 32, (1 << 32) + 5, (1 << 34) + 7] if bits > 32 else [])),
+                         st.integers(0, top), st.integers(0, 100000))
+
+    hex16 = st.binary(min_size=16, max_size=16).map(bytes.hex)
+    ascii_s = st.text(alphabet="abcdefghijklmnopqrstuvwxyz0123456789:/._-", max_size=20)
+    T = ["moof", "traf"]
+
+    def setf(path, field, values):
+        return st.fixed_dictionaries({"op": st.just("set"), "path": st.just(path), "field": st.just(field), "value": values})
+
+    frag_steps = st.one_of(
+        setf(T + ["tfdt"], "base_media_decode_time", u(64)), setf(T + ["tfdt"], "base_media_decode_time", u(64)),
+        setf(["moof", "mfhd"], "sequence_number", u(32)),
+        setf(T + ["tfhd"], "track_id", u(32)), setf(T + ["tfhd"], "default_sample_duration", u(32)),
+        setf(T + ["tfhd"], "default_sample_size", u(32)), setf(T + ["tfhd"], "default_sample_flags", u(32)),
+        setf(T + ["tfhd"], "sample_description_index", u(32)),
+        st.fixed_dictionaries({"op": st.just("set_sample"), "path": st.just(T + ["trun"]), "index": st.integers(0, 200), "value": u(32)}),
+        st.just({"op": "set_none", "path": T + ["tfhd"], "field": "base_data_offset"}),
+        st.just({"op": "set_none", "path": T + ["saio"], "field": "offsets"}),
+        st.just({"op": "or_flags", "path": T + ["trun"], "mask": 1}),
+        st.fixed_dictionaries({"op": st.just("insert_tfdt"), "value": u(32)}),
+        st.just({"op": "insert_piff"}), st.just({"op": "move_senc_before_saiz"}),
+        st.just({"op": "del", "path": [], "name": "sidx"}), st.just({"op": "del", "path": [], "name": "styp"}),
+        st.just({"op": "del", "path": T, "name": "tfdt"}),
+        st.fixed_dictionaries({"op": st.just("insert_emsg"), "version": st.integers(0, 1), "scheme_id_uri": ascii_s, "value": ascii_s,
+                               "timescale": u(32), "event_duration": u(32), "event_id": u(32), "time": u(32),
+                               "data": st.binary(max_size=20).map(bytes.hex)}),
+        setf(["emsg"], "event_duration", u(32)), setf(["emsg"], "timescale", u(32)), setf(["emsg"], "value", ascii_s),
+        setf(["emsg"], "presentation_time_delta", u(32)), setf(["emsg"], "presentation_time", u(64)), setf(["emsg"], "event_id", u(32)),
+        setf(["sidx"], "timescale", u(32)), setf(["sidx"], "earliest_presentation_time", u(32)), setf(["sidx"], "reference_id", u(32)),
+        st.sampled_from([{"op": "touch", "path": T + [n]} for n in ("trun", "tfhd", "tfdt", "senc", "saio", "saiz")]),
+    )
+    pssh_step = st.fixed_dictionaries({"op": st.sampled_from(["append_pssh", "append_pssh", "insert_pssh"]), "where": st.just("moov"),
+                                       "version": st.integers(0, 1), "system_id": hex16, "kids": st.lists(hex16, max_size=3),
+                                       "data": st.one_of(st.none(), st.binary(max_size=30).map(bytes.hex))})
+    M = ["moov", "trak", "mdia", "mdhd"]
+    lang = st.one_of(st.sampled_from(["und", "eng", "fra"]), st.text(alphabet="abcdefghijklmnopqrstuvwxyz", min_size=3, max_size=3))
+    init_steps = st.one_of(
+        pssh_step, pssh_step,
+        st.just({"op": "del", "path": ["moov", "mvex"], "name": "mehd"}), st.just({"op": "del", "path": ["moov"], "name": "mvex"}),
+        st.just({"op": "del", "path": ["moov"], "name": "udta"}), st.just({"op": "del", "path": [], "name": "free"}),
+        st.just({"op": "del", "path": ["moov"], "name": "pssh"}),
+        setf(["moov", "trak", "tkhd"], "track_id", u(32)), setf(["moov", "mvex", "trex"], "track_id", u(32)),
+        setf(["moov", "mvhd"], "next_track_id", u(32)), setf(M, "language", lang), setf(M, "timescale", u(32)),
+        setf(M, "duration", u(32)), setf(["moov", "mvhd"], "timescale", u(32)), setf(["moov", "mvhd"], "duration", u(64)),
+        setf(["moov", "mvex", "mehd"], "fragment_duration", u(32)),
+        st.sampled_from([{"op": "touch", "path": p} for p in (["moov", "trak", "mdia", "minf", "stbl", "stsd"], ["moov", "mvex", "trex"], M,
+                                                              ["moov", "trak", "tkhd"])]),
+    )
+    moof_pssh = st.fixed_dictionaries({"op": st.just("append_pssh"), "where": st.just("moof"), "version": st.integers(0, 1),
+                                       "system_id": hex16, "kids": st.lists(hex16, max_size=2),
+                                       "data": st.one_of(st.none(), st.binary(max_size=12).map(bytes.hex))})
+
+    @st.composite
+    def case(draw):
+        k = draw(st.integers(0, 9))
+        if k < 4:
+            base, pool = draw(st.sampled_from(frag_bases)), st.one_of(frag_steps, frag_steps, frag_steps, moof_pssh)
+        elif k < 6:
+            base, pool = draw(st.sampled_from(init_bases)), init_steps
+        else:
+            base = draw(gen)
+            has_moov = any(b["t"] == "moov" for b in base["boxes"])
+            has_moof = any(b["t"] == "moof" for b in base["boxes"])
+            pool = st.one_of(*([init_steps] * has_moov + [frag_steps] * has_moof + [frag_steps, init_steps][:1 - (has_moov or has_moof)]))
+        return {"base": base, "lazy": draw(st.sampled_from([True, True, False])), "src": draw(st.sampled_from(["br", "io"])),
+                "steps": draw(st.lists(pool, min_size=2, max_size=8))}
+    return case()
+
+
+class EditSequences(Engine):
+    name = "edit_sequences"
+
+    def budget(self, tier):
+        return 4000 if tier == "quick" else 200_000
+
+    def strategy(self, tier):
+        return _edit_strategy()
+
+    def check(self, case):
+        return check_edits(case)
+
+
+ENGINES = [FixtureRoundtrip(), GeneratedBoxes(), EditSequences()]
